@@ -368,6 +368,11 @@ func judge(cfg oracleCfg, m *msgSpec, atts []*attempt, reports []report) *verdic
 		if clause == "lost" && r != "" && cfg.NoUTF8Hop && !isASCII(r) {
 			sig += "/idn-rcpt-at-hop-without-smtputf8"
 		}
+		if clause == "lost" && m.hasOdd() {
+			// Some address of the message (sender, recipient, original recipient) is an
+			// address literal / has an unusual but legitimate host name shape.
+			sig += "/unusual-domain-in-message"
+		}
 		if cause != "" {
 			sig += "/" + cause
 		}
